@@ -6,6 +6,12 @@
 
 use crate::error::Result;
 use std::path::PathBuf;
+// Verification seam: under `--cfg qe_verif_loom` (set only by the external
+// loom harness, which includes this file by #[path]) the pool's atomics are
+// loom's, so every interleaving of reservers can be enumerated.
+#[cfg(qe_verif_loom)]
+use loom::sync::atomic::{AtomicUsize, Ordering};
+#[cfg(not(qe_verif_loom))]
 use std::sync::atomic::{AtomicUsize, Ordering};
 use std::sync::Arc;
 
